@@ -32,6 +32,13 @@ def load_program(config, keep_target=False):
     info = extract.extract(config, keep_target=keep_target)
     prog = Program(info["files"])
     prog.extract_info = info
+    if os.environ.get("VERIF_NO_INLINE") != "1":
+        import inline
+        prog, st = inline.normalise(prog)
+        prog = inline.ghost_expose(prog)
+        prog.extract_info = info
+        if st.get("reference") == "missing":
+            raise SystemExit("BROKEN-CHECKER: rules/reference_fns.json is missing (python3 rules/main.py gen-reference)")
     return prog
 
 def run_property(pid, tier):
@@ -70,6 +77,15 @@ def main(argv):
             if argv[3] in k:
                 print(fmt_fn(f.raw)); print()
         return 0
+    if len(argv) >= 2 and argv[1] == "gen-reference":
+        # freeze the function ids of the current tree (all feature configurations) as the reference for inline.normalise
+        os.environ["VERIF_NO_INLINE"] = "1"
+        ids = set()
+        for cfg in extract.CONFIGS:
+            ids |= set(load_program(cfg).fns.keys())
+        ids = sorted(i for i in ids if "{closure" not in i)
+        json.dump({"tree": extract.tree_hash(os.environ.get("MAY_REPO", "/repo")), "fns": ids}, open(os.path.join(HERE, "reference_fns.json"), "w"), indent=0)
+        print("reference: %d function ids" % len(ids)); return 0
     if len(argv) >= 2 and argv[1] == "replay":
         d = json.load(open(argv[2]))
         pid = d["property_id"]; key = d["key"]
